@@ -392,6 +392,25 @@ func checkC18(r *harness.Run) harness.Coverage {
 				Kids [][][]float64
 				Subs []struct{ Rows [][]string }
 			}{"cube", [][][]float64{{{1, 2}, {3}}, {{4}}}, []struct{ Rows [][]string }{{[][]string{{"a"}, {"b", "c"}}}, {[][]string{}}}},
+			// two exported fields that are equal under case folding: a lookup must stay exact (after upper-casing the first letter)
+			struct {
+				ID   float64
+				Id   string
+				Name string
+				NAME float64
+			}{1, "x", "n", 2},
+			&struct {
+				Id   string
+				ID   float64
+				Kids []struct{ Id, ID string }
+			}{"y", 3, []struct{ Id, ID string }{{"a", "b"}, {"c", "d"}}},
+			// typed slices of every kind the property names, as struct fields, next to an erroring element
+			struct {
+				Name string
+				Kids []string
+				Subs []float64
+				Ws   []*Leaf
+			}{"fn", []string{"b", "a", "c"}, []float64{3, 1, 2}, []*Leaf{{"x", 2, true}, nil, {"y", 1, false}}},
 			struct {
 				Name string
 				ID   float64
@@ -403,7 +422,11 @@ func checkC18(r *harness.Run) harness.Coverage {
 		for _, e := range []string{"ID", "Name", "Label", "Kids[*].ID", "Kids[*].Label", "Kids[?Score > `1`].Label", "Kids[?ID].Score", "ID || Name", "[ID, Name, Label]", "{i: ID, n: Name}", "Kids[0].ID", "Kids[1].ID", "Kids[-1].Label",
 			"length(Kids)", "Kids[].ID", "Kids[*].[ID, Score]", "not_null(ID, Name)", "Kids[::-1][*].ID", "Kids[1]", "Kids[1].[ID]", "Kids[*].Score",
 			"Rev", "By", "Title", "Subs[*].Rev", "Subs[*].By", "Subs[?N > `1`].Rev", "Subs[0].By", "Subs[1].Rev", "[Rev, By, Title]", "Subs[].N", "Rev || Title",
-			"Kids[0]", "Kids[2][0]", "Kids[]", "Kids[*][0]", "ID[0]",
+			"Kids[0]", "Kids[2][0]", "Kids[]", "Kids[*][0]", "ID[0]", "Id", "[Id, ID]", "Kids[*].Id", "Kids[*].[Id, ID]", "NAME", "[Name, NAME]", "{a: Id, b: ID}", "Kids[?Id == 'a'].ID",
+			// built-ins over typed slices agree with the generic form (value and error-ness), zero steps and erroring right-hand sides included
+			"type(Kids)", "to_array(Kids)", "to_number(Kids)", "contains(Kids, 'a')", "contains(Subs, `1`)", "sort(Kids)", "sort(Subs)", "max(Kids)", "min(Subs)", "sum(Subs)", "avg(Subs)", "join(',', Kids)", "reverse(Kids)", "reverse(Subs)", "length(Subs)",
+			"not_null(Kids)", "map(&@, Kids)", "sort_by(Kids, &@)", "max_by(Subs, &@)", "[sort(Kids), join('-', Kids)]", "[sort(Subs), Subs[0]]", "Kids[::0]", "Subs[::0]", "Kids[?@ == 'a'].abs(@)", "Subs[?@ > `1`].length(@)",
+			"Kids[*].abs(@)", "Ws[?S == 'x'].abs(S)", "Kids[::-1]", "to_array(Kids[0])", "contains(Ws[*].S, 'y')", "Kids[?@ == 'zz']", "Subs[?@ > `9`]", "Ws[?N > `9`].S", "{e: Kids[?@ == 'zz'], f: Subs[?@ > `9`]}", "to_string(Kids[?@ == 'zz'])", "Kids[?@ == 'zz'] == `[]`",
 			"Kids[][]", "[Kids][]", "Kids[*][]", "ID[]", "ID[][]", "Kids[0][]", "[ID][]", "[ID[0]][]", "Kids[][][]", "Subs[*].Rows[]", "Subs[].Rows[]", "Subs[*].Rows[][]", "[Subs[0].Rows][]", "Subs[0].Rows[]", "Kids[] | [0]", "Kids[*][*]", "Kids[*][0][]", "length(Kids[])", "Kids[1:][]",
 			// comparisons of whole Go values of the same type (filter conditions compare what navigation returns)
 			"\"Ǆep\"", "\"Ǉub\"", "[\"Ǆep\", Name]", "Repo.S", "Repo.N", "Kids[*].S", "Kids[1].N", "ID.Label", "Kids[?B].S", "Repo",
